@@ -473,3 +473,18 @@ Fixpoint trun_ok (v : cvariant) (s : tstate) (sched : list nat) : bool :=
 (* one stale entry in the map, no refresh claimed, every thread about to look the key up *)
 Definition tinit (outcomes : list outcome) : tstate :=
   {| t_cur := 0; t_next := 1; t_flag := fun _ => false; t_stale := fun x => Nat.eqb x 0; t_pcs := map (fun o => (P0, o)) outcomes |}.
+
+(* the instant an entry under `key` was last used, read off the history: the most recent cacheable insert under
+   the key or lookup of the key (a lookup that is not answered removes the entry, so for an entry that is still
+   cached the lookups counted here are exactly the answered ones).  Reloads do not touch it. *)
+Fixpoint last_touch (h : list timed) (key : bytes) (acc : option Z) : option Z :=
+  match h with
+  | [] => acc
+  | (now, o) :: rest =>
+      match o with
+      | Insert name qt sc _ is_ip resp_ok _ _ _ =>
+          if resp_ok && negb is_ip && bytes_eqb (key_of name qt sc) key then last_touch rest key (Some now) else last_touch rest key acc
+      | Lookup name qt sc => if bytes_eqb (key_of name qt sc) key then last_touch rest key (Some now) else last_touch rest key acc
+      | _ => last_touch rest key acc
+      end
+  end.
